@@ -222,7 +222,7 @@ def h_sums(n0: int, n1: int, n2: int, n3: int, n4: int, k0: int, k1: int, k2: in
 # front/: three report functions on the same real input
 
 
-def h_front(dx: bool, dy: bool, hdr: bool, two: bool) -> bool:
+def h_front(dx: bool, dy: bool, hdr: bool, two: bool, raw: bool) -> bool:
     """
     post: _
     """
@@ -258,8 +258,13 @@ def h_front(dx: bool, dy: bool, hdr: bool, two: bool) -> bool:
             for rel, lines in files.items():
                 p = os.path.join(d, rel)
                 os.makedirs(os.path.dirname(p), exist_ok=True)
-                with open(p, "w") as f:
-                    f.write("\n".join(lines) + "\n")
+                data = ("\n".join(lines) + "\n").encode()
+                if raw and rel == "inc/h.h":
+                    data = data.replace(b"\n", b"\r\n")  # a header checked out with CRLF line endings
+                if raw and rel == "src/sub/util.c":
+                    data = data.replace(b"// c", b"// caf\xe9")  # a Latin-1 byte: not valid UTF-8
+                with open(p, "wb") as f:
+                    f.write(data)
             os.symlink(os.path.join(d, "src/main.c"), os.path.join(d, "src/link.c"))
             db = [{"directory": d, "file": "src/main.c", "arguments": ["gcc", "-Iinc"] + (["-DX"] if dx else []) + ["-c", "src/main.c"]}]
             if two:
@@ -371,7 +376,7 @@ def h_front(dx: bool, dy: bool, hdr: bool, two: bool) -> bool:
             except OSError:
                 pass
     if P.get("_replay"):
-        LAST.update(bits=[bool(dx), bool(dy), bool(hdr), bool(two)], why=why)
+        LAST.update(bits=[bool(dx), bool(dy), bool(hdr), bool(two)], raw_bytes=bool(raw), why=why)
     return why is None
 
 
